@@ -20,7 +20,8 @@ def main() -> None:
     with open(outp, 'a') as out:
         for i, case in todo:
             try:
-                r = core.with_cpu_budget(mod.run_case, case, budget)
+                # a case may carry its own (smaller) budget: a directed input known to finish in seconds is not given minutes to hang
+                r = core.with_cpu_budget(mod.run_case, case, (case.get('cpu_s') * cpu_mult) if isinstance(case, dict) and case.get('cpu_s') else budget)
                 if isinstance(r, core.Res):
                     r = r.out()
             except core.CpuTimeout:
